@@ -30,7 +30,7 @@ PROPS = {
         "pre": ["build_tools"],
         "timeout": 1500,
         "level": "proof",
-        "level_text": "PARTIAL. Kernel-checked theorems, with hash iteration order modelled as an arbitrary permutation (List.Perm): the vector update_files_by_uri hands to the pipelines (after the sort fix) is the same for every iteration order of the id HashSet; the context list of module_analyze is the same for every iteration order of the per-workspace HashMap (STD first, libraries/remote by id, main last; keys proved distinct); hence the whole analysis schedule (contexts, tree_list order, get_best_analysis_order per context) is invariant (order_perm_invariant); the ready-queue comparator (meta first, then FileId) is a total order so tie-breaks are unique; the pre-fix behaviour has a witness. The models are tied to the code on every run by correspondence: real get_best_analysis_order on generated dependency graphs (cycles, metas, foreign dependencies) and real update_files_by_uri on fresh analyses vs the model. Independently the real emmylua_check binary is run in fresh processes (fresh hash seeds) on generated cross-file workspaces and the sorted diagnostics are compared across runs.",
+        "level_text": "PARTIAL. Kernel-checked theorems, with hash iteration order modelled as an arbitrary permutation (List.Perm): the vector update_files_by_uri hands to the pipelines (after the sort fix) is the same for every iteration order of the id HashSet; the context list of module_analyze is the same for every iteration order of the per-workspace HashMap (STD first, libraries/remote by id, main last; keys proved distinct); hence the whole analysis schedule (contexts, tree_list order, get_best_analysis_order per context) is invariant (order_perm_invariant); the ready-queue comparator (meta first, then FileId) is a total order so tie-breaks are unique; get_best_analysis_order (Kahn with in-degree counters) is proved, through the loop invariant 'counter = number of in-list dependencies not yet emitted', to return a permutation of its input for every graph (cycles included) with every queue-phase file after all its in-list dependencies and the tail = exactly the blocked files; the pre-fix behaviour has a witness. The models are tied to the code on every run by correspondence: real get_best_analysis_order on generated dependency graphs (cycles, metas, foreign dependencies) and real update_files_by_uri on fresh analyses vs the model. Independently the real emmylua_check binary is run in fresh processes (fresh hash seeds) on generated cross-file workspaces and the sorted diagnostics are compared across runs.",
         "level_note": "Partial: iteration of hash maps inside the analyzers (member maps, type maps, reference maps) is not modelled; it is covered only by the fresh-process search (diagnostics; semantic-token dumps are not compared). Trusted: Lean kernel, python runner, vh-tools, correspondence runs as the tie. Modelled: update_files_by_uri's id vector, module_analyze grouping/context order, get_best_analysis_order (Kahn + tie-break + cycle tail).",
         "trusted_base": TOOLS_TB,
         "assumptions": [
@@ -39,6 +39,21 @@ PROPS = {
             "file ids are assigned in registration order (Vfs), so sorting ids = registration order",
         ],
         "technique": "Lean 4 theorems (List.Perm invariance, sorting uniqueness) over executable models + correspondence with the real functions + fresh-process differential runs of the real binary",
+    },
+    "C35": {
+        "harness": "vh-tools",
+        "runner": "checklib/run/tools_c35.py",
+        "pre": ["build_tools"],
+        "timeout": 1500,
+        "level_text": "Kernel-checked theorems about an executable Lean model of the JSON export's list construction (export_types / export_modules / export_globals after the ordering fix: sort, main-workspace filter, one entry per global name), with the hash-map listings modelled as arbitrary permutations: the output is the same for every iteration order (perm-invariance, given the distinctness of map keys / declaration ids); a type is exported iff it is a class/enum/alias with a main-workspace declaration, each once; each global name with a typed main-workspace declaration exactly once (de-duplication of the name-sorted list proved strictly increasing and lossless); modules iff main-workspace file with an export; nothing without a main-workspace declaration; pre-fix witness. Tie: the real emmylua_doc_cli on generated workspaces vs the model's name sequences on every run. Oracle: fresh-process exports byte-identical; declared classes/enums/aliases/globals/modules each once; nothing from library roots or std.",
+        "level_note": "Trusted: Lean kernel, python runner (workspace generator, expected-declaration bookkeeping), the correspondence run as the tie. Modelled: order, filtering and de-duplication of the three top-level lists. Not modelled: rendering of each entry (members, types, locations, config block) — covered only by the byte-identity oracle over fresh processes; a module is taken to be 'declared' when its file returns a value (export_type present).",
+        "trusted_base": TOOLS_TB,
+        "assumptions": [
+            "hash-map iteration is some permutation of the stored entries",
+            "type full names are unique keys of the type map; a global declaration id (file, position) is unique; one module info per file",
+            "names compare as Rust str (byte-wise); generated names are ASCII",
+        ],
+        "technique": "Lean 4 theorems (List.Perm invariance of sort/filter/dedup) over an executable model + correspondence with the real binary + fresh-process byte-identity oracle",
     },
     "C38": {
         "harness": "vh-tools",
